@@ -125,10 +125,10 @@ CLAIMED = {
                  "iteration use different subsets for any start subset. (f) actual_subsets_are_approximately_balanced: the counting loops add to the entry of subset s, exactly once and with "
                  "weight num_related, every view-segment that find_basic_vs_nums_in_subset gives to subset s and nothing with another weight (three nested "
                  "loop contracts); the verdict loop returns true only if every entry equals entry 0 and false only with a subset that differs from entry 0. "
-                 (g) the sub-iteration loop of IterativeReconstruction::reconstruct presents every sub-iteration number from the start "
+                 "(g) the sub-iteration loop of IterativeReconstruction::reconstruct presents every sub-iteration number from the start "
                  "to the last exactly once and in order to update_estimate (loop contract; early termination nondeterministic). "
                  "All symmetry switches symbolic. Not decided: that an entry is the sum of its contributions (read from the single '+='), "
-                 "that the driver passes the value on, other symmetry classes."),
+                 "that every update_estimate passes get_subset_num()'s value on (syntactic static fact only), other symmetry classes."),
         "note": ("trusted: cbmc 6.11.0 + kissat; SYM_VALID as established by the constructor (read from source); view range [0,num_views), "
                  "symmetric segment range; randomly_permute_subset_order delivers a permutation (assumed); std::vector modelled by "
                  "bounded array / ghost counters; parametric: num_subsets swept as constants"),
